@@ -1,7 +1,7 @@
 # Registry: which jobs decide which property, plus the per-property texts that go into the evidence.
 import importlib
 
-MODULES = ["jobs_coeffs"]
+MODULES = ["jobs_coeffs", "jobs_vec"]
 
 CLAIMED = ["C05", "C08", "C13", "C11", "C18"]
 LEVEL = {"C12": "other", "C15": "other"}
